@@ -27,15 +27,22 @@ for d in sorted(glob.glob(os.path.join(V, 'seeded', 'C*_*'))):
         verdict = 'MISSED'
     rows.append('| %s | %s | %s | %s |' % (sid, what[:170], needs[:170], verdict))
 out = ['## 9. Seeded changes and which checks catch them', '',
-       'Eighty changes to eqsig written by sub-agents that saw only the text of one property (never `/verif`), each confirmed in a',
-       'scratch worktree: applies to `/repo` HEAD, the 63 tests pass with it, its demonstration fails with it and passes without it',
-       '(`harness/confirm_seeds.sh`; `seeded/<id>/{patch.diff, demo.py, meta.json}`). Seeds `_1`, `_2` date from the first session,',
-       '`_3`, `_4` were requested with "a mechanism different from the ones already used". Each was run against the quick tier of its',
-       'property\'s check in a scratch worktree through `EQSIG_REPO` (`harness/sweep_seeds.sh`, results in `seeded/RESULTS.tsv`); the',
-       'table gives the first reporting site. Checks were strengthened where a seed was first missed (see 7.3, last bullet): object',
-       'read → change → read-again histories (C03, C07, C08, C09, C10), purity/repeatability wrappers and non-float64 storage',
-       '(C01, C02, C06, C08, C11), long-record × many-period batches (C02), non-integer refinement factors (C03), weak-motion',
-       'amplitudes (C09). The reverses of the `fix:` commits made in this work were used as additional mutants by the builders.', '',
+       'One hundred and twenty changes to eqsig written by sub-agents that saw only the text of one property (never `/verif`), each',
+       'confirmed in a scratch worktree: applies to `/repo` HEAD, the 63 tests pass with it, its demonstration fails with it and passes',
+       'without it (`harness/confirm_seeds.sh`; `seeded/<id>/{patch.diff, demo.py, meta.json}`). Three rounds of two per property: `_1`, `_2`',
+       '(first session), `_3`, `_4` ("a mechanism different from the ones already used"), `_5`, `_6` ("a KIND of mechanism not in the list at',
+       'all: boundary conditions, index arithmetic, equality branches, option combinations, ordering effects, rounding shortcuts, default',
+       'propagation"). Each was run against the quick tier of its property\'s check in a scratch worktree through `EQSIG_REPO`',
+       '(`harness/sweep_seeds.sh`, results in `seeded/RESULTS.tsv`); the table gives the first reporting site of the final sweep. After',
+       'round 2, 15 of 80 were first missed; after round 3, 10 of the 40 new ones; every one is caught now. What was added for them (see 7.3):',
+       'object read → change → read-again histories (C03, C07, C08, C09, C10), purity/repeatability wrappers (`core.guarded_pure`) and',
+       'non-float64 storage (C01, C02, C06, C08, C09, C11, C13, C17, C18, C19), long-record × many-period batches and object-level refinement',
+       '(C02), non-integer refinement factors (C03), weak-motion amplitudes (C08, C09, C19), list/tuple containers (C08), record lengths k·1000',
+       'and two round trips through one path (C16), nearly aligned clusters and angles ±1–2 ulp from the cardinal directions (C18), energy at the',
+       'old Nyquist frequency (C14), rounding-edge (dt, length) pairs and windows longer than the record (C05). Sites named `translator` or',
+       '`proof:…` mean the change was refused by a fail-closed translator / broke a proof obligation about the translated source (a concrete',
+       'input is then looked for by the correspondence of the same run). The reverses of the `fix:` commits made in this work, and 4–12 hand',
+       'mutants per translator, were used as additional mutants by the builders.', '',
        '| seed | clause broken | needs | result (quick tier) |', '|---|---|---|---|'] + rows
 open(os.path.join(V, 'design_parts/09_seeded_changes.md'), 'w').write('\n'.join(out) + '\n')
 print(len(rows), 'seeds;', sum('MISSED' in r for r in rows), 'missed;', sum('not run' in r for r in rows), 'not run')
